@@ -219,6 +219,11 @@ def _pure(e, depth=0):
     if isinstance(e, ast.UnaryOp) and isinstance(e.op, ast.Not):
         return _pure(e.operand, depth + 1)
     if isinstance(e, ast.Call):
+        if isinstance(e.func, ast.Name) and e.func.id in (
+                'len', 'isinstance', 'issubclass', 'type', 'id', 'bool',
+                'abs', 'min', 'max') and not e.keywords and all(
+                _pure(a, depth + 1) for a in e.args):
+            return True
         if isinstance(e.func, ast.Attribute) and not e.args and \
                 not e.keywords:
             return _pure(e.func.value, depth + 1)
@@ -286,6 +291,20 @@ def _chained_alias(fn, name, lst, bs):
     return True
 
 
+def _remove_stmt(fn, stmt):
+    """Delete stmt from the statement list that holds it (``pass`` if the
+    list would become empty)."""
+    for n in ast.walk(fn):
+        for fld in ('body', 'orelse', 'finalbody'):
+            lst = getattr(n, fld, None)
+            if isinstance(lst, list) and stmt in lst:
+                lst.remove(stmt)
+                if not lst and fld == 'body':
+                    lst.append(ast.copy_location(ast.Pass(), stmt))
+                return True
+    return False
+
+
 def unalias(fn, known_names, wanted=None):
     """Substitute, in place, every local of fn that (a) is not one of
     ``known_names`` (the locals recorded for this function), (b) is bound
@@ -346,8 +365,9 @@ def unalias(fn, known_names, wanted=None):
                 continue
             _Subst(name, expr).visit(fn)
             # the binding statement becomes a no-op
-            stmt.targets = [ast.Name(id='__dropped', ctx=ast.Store())]
-            stmt.value = ast.Constant(value=None)
+            if not _remove_stmt(fn, stmt):
+                stmt.targets = [ast.Name(id='__dropped', ctx=ast.Store())]
+                stmt.value = ast.Constant(value=None)
             removed += 1
             done = True
             break
